@@ -524,6 +524,34 @@ Proof.
     apply (sub3_none st s p o g E H).
 Qed.
 
+Lemma qb_filter_opt_ok f v : qb_filter f v = opt_ok f v.
+Proof. destruct f as [x|]; cbn [qb_filter opt_ok]; [apply N.eqb_sym|reflexivity]. Qed.
+
+Lemma qb_matches_spec s p o q :
+  qb_matches s p o q = true <-> matches (qg q) s p o q = true.
+Proof.
+  unfold qb_matches, matches. rewrite !qb_filter_opt_ok, N.eqb_refl.
+  destruct (opt_ok s (qs q)), (opt_ok p (qp q)), (opt_ok o (qo q)); cbn [andb]; tauto.
+Qed.
+
+Lemma query_builder_spec st s p o : Inv st ->
+  NoDup (query_builder st s p o) /\
+  forall q, In q (query_builder st s p o) <-> matches 0 s p o q = true /\ has st q.
+Proof.
+  intros HI. unfold query_builder. split; [apply NoDup_qdedup|].
+  destruct (query_graph_spec st 0 None None None HI) as [_ Hq].
+  assert (Hid : map (fun q => mkq (qs q) (qp q) (qo q) 0) (query_graph st 0 None None None)
+                = query_graph st 0 None None None).
+  { rewrite <- (map_id (query_graph st 0 None None None)) at 2. apply map_ext_in.
+    intros [[[s' p'] o'] g'] H. apply Hq in H. destruct H as [H _]. apply matches_qg in H.
+    cbn [qs qp qo qg fst snd] in *. subst g'. reflexivity. }
+  rewrite Hid. intros q. rewrite in_qdedup, filter_In, Hq, qb_matches_spec. split.
+  - intros [[Hm Hh] Hb]. apply matches_qg in Hm. rewrite Hm in Hb. tauto.
+  - intros [Hm Hh]. pose proof (matches_qg _ _ _ _ _ Hm) as Hg. rewrite Hg.
+    split; [split; [|exact Hh]|exact Hm].
+    unfold matches. cbn [opt_ok]. rewrite Hg. reflexivity.
+Qed.
+
 (* ---------- bulk mutators ---------- *)
 
 Lemma delete_all_spec l : forall st, Inv st ->
@@ -701,6 +729,14 @@ Proof.
   apply (abs_filter st sp _ _ (fun q => matches g s p o q = true) HA Hnd Hq). tauto.
 Qed.
 
+Lemma abs_query_builder st sp s p o : Abs st sp ->
+  same_set (query_builder st s p o) (s_query_graph sp 0 s p o).
+Proof.
+  intros HA. destruct (query_builder_spec st s p o (abs_inv _ _ HA)) as [Hnd Hq].
+  unfold s_query_graph.
+  apply (abs_filter st sp _ _ (fun q => matches 0 s p o q = true) HA Hnd Hq). tauto.
+Qed.
+
 Lemma NoDup_map_succ l : NoDup l -> NoDup (map N.succ l).
 Proof. intros H. apply NoDup_map_inj_on; [exact H|]. intros x y _ _ E. lia. Qed.
 
@@ -728,7 +764,7 @@ Lemma step_sim st sp o : Abs st sp ->
   out_agree (snd (step st o)) (snd (sstep sp o)) /\ Abs (fst (step st o)) (fst (sstep sp o)).
 Proof.
   intros HA. pose proof (abs_inv _ _ HA) as HI.
-  destruct o as [q|q|g|g|g| | |q|g s p o|s p o vis|gs s p o|s p o g|g| | | |s p o|g];
+  destruct o as [q|q|g|g|g| | |q|g s p o|s p o vis|gs s p o|s p o g|g| | | |s p o|g|s p o|s p o];
     cbn [step sstep fst snd out_agree].
   - (* Insert *)
     destruct (insert_spec st q HI) as [HI' [Hh [Hc Hs]]]. split.
@@ -875,6 +911,11 @@ Proof.
         cbn [qs qp qo qg fst snd] in *. belim. subst. apply (abs_q _ _ HA). exact Hin.
   - (* LenG *)
     split; [|exact HA]. apply (f_equal N.of_nat). apply same_set_length. apply abs_query_graph. exact HA.
+  - (* QB *)
+    split; [|exact HA]. apply abs_query_builder. exact HA.
+  - (* QBCount *)
+    split; [|exact HA]. apply (f_equal N.of_nat). apply same_set_length.
+    apply abs_query_builder. exact HA.
 Qed.
 
 Lemma refines_gen ops : forall st sp, Abs st sp ->
@@ -901,6 +942,20 @@ Proof.
   intros ops g s p o st sp. destruct (refines ops) as [_ HA]. fold st sp in HA.
   destruct (query_graph_spec st g s p o (abs_inv _ _ HA)) as [Hnd Hq].
   split; [exact Hnd|]. intros q. rewrite Hq, (abs_q _ _ HA). reflexivity.
+Qed.
+
+Theorem query_builder_exact : forall (ops : list op) (s p o : option N),
+  let st := fst (run init ops) in
+  let sp := fst (srun sinit ops) in
+  NoDup (query_builder st s p o) /\
+  (forall q, In q (query_builder st s p o) <-> (matches 0 s p o q = true /\ In q (sq sp))) /\
+  length (query_builder st s p o) = length (s_query_graph sp 0 s p o).
+Proof.
+  intros ops s p o st sp. destruct (refines ops) as [_ HA]. fold st sp in HA.
+  destruct (query_builder_spec st s p o (abs_inv _ _ HA)) as [Hnd Hq].
+  split; [exact Hnd|split].
+  - intros q. rewrite Hq, (abs_q _ _ HA). reflexivity.
+  - apply same_set_length. apply abs_query_builder. exact HA.
 Qed.
 
 Theorem rebuild_abs : forall ops, Abs (rebuild (fst (run init ops))) (fst (srun sinit ops)).
@@ -933,7 +988,7 @@ Proof.
   assert (Hsame : In g (scat sp) <-> false = true \/ (In g (scat sp) /\ false = false)).
   { split; [intros H; right; split; [exact H|reflexivity]|].
     intros [H|[H _]]; [discriminate H|exact H]. }
-  destruct o as [q|q|g'|g'|g'| | |q|g' s p o|s p o vis|gs s p o|s p o g'|g'| | | |s p o|g'];
+  destruct o as [q|q|g'|g'|g'| | |q|g' s p o|s p o vis|gs s p o|s p o g'|g'| | | |s p o|g'|s p o|s p o];
     cbn [sstep fst scat intro_op remove_op s_clear_graph]; try exact Hsame.
   - (* Insert *)
     change (s_register (qg q) (scat sp)) with (register_graph (qg q) (scat sp)).
